@@ -3,6 +3,7 @@ package main
 import (
 	"fmt"
 	"go/ast"
+	"go/constant"
 	"go/token"
 	"go/types"
 	"sort"
@@ -421,20 +422,42 @@ func r044(c *Ctx, r *R) {
 	}
 	data, meta := c.constIn("api", "DataType"), c.constIn("api", "MetaType")
 	lu := findCalls(f, false, c04Sinks[1])
+	isT := func(x ssa.Value) bool { fl, _ := fieldLoad(x); return fl != nil && fl.Name() == "Type" }
 	for i, ci := range lu {
-		typeOK := guardedBy(ci.Block(), func(g Guard) bool {
-			isT := func(x ssa.Value) bool { fl, _ := fieldLoad(x); return fl != nil && fl.Name() == "Type" }
-			return gEq(g, data, true, isT) || gEq(g, meta, true, isT)
-		})
-		found := guardedBy(ci.Block(), func(g Guard) bool { return gCallErrNil(g, ModPath+".Cluster).PinGet") })
+		// every path to the call established Type == data or Type == meta
+		// (dominance, or a switch arm that falls out to a shared call)
+		typeOK := mustPass(ci.Block(), func(g Guard) bool { return gEq(g, data, true, isT) || gEq(g, meta, true, isT) })
+		found := mustPass(ci.Block(), func(g Guard) bool { return gCallErrNil(g, ModPath+".Cluster).PinGet") })
 		r.Check(typeOK && found, fmt.Sprintf("Unpin:LogUnpin#%d", i+1), ci.Pos(), "LogUnpin only for data/meta pins that were found in the pinset", "Unpin logs an unpin for a pin type other than data/meta, or without the pin having been found")
 		// what is unpinned is the pin that was looked up
 		a := callArgs(ci.Common())
 		pc, idx := originCall(a[1])
 		r.Check(pc != nil && idx == 0 && nameMatches(callName(pc.Common()), ModPath+".Cluster).PinGet"), fmt.Sprintf("Unpin:arg#%d", i+1), ci.Pos(), "the stored pin is what is unpinned", "Unpin removes something other than the looked-up pin")
 	}
-	if len(lu) != 2 {
-		r.Bad("Unpin:arms", f.Pos(), "Unpin has %d LogUnpin calls (expected 2: data and meta)", len(lu))
+	if len(lu) == 0 {
+		r.Bad("Unpin:arms", f.Pos(), "Unpin has no LogUnpin call")
+	}
+	// data and meta pins can both be unpinned: a LogUnpin is reachable
+	// without taking an edge that asserts another type
+	for _, k := range []struct {
+		name string
+		v    constant.Value
+	}{{"data", data}, {"meta", meta}} {
+		reach := false
+		for _, ci := range lu {
+			if !mustPass(ci.Block(), func(g Guard) bool {
+				// edges that exclude this type: Type == k is false, or
+				// Type == other constant is true
+				if gEq(g, k.v, false, isT) {
+					return true
+				}
+				x, kk, tme, ok := eqConst(g.Cond)
+				return ok && isT(x) && tme == g.Branch && !constant.Compare(kk, token.EQL, k.v)
+			}) {
+				reach = true
+			}
+		}
+		r.Check(reach, "Unpin:can-unpin:"+k.name, f.Pos(), k.name+" pins reach LogUnpin", "Unpin has no path that logs the unpin of a "+k.name+" pin")
 	}
 	// exhaustive switch
 	pt := c.namedType(r, "api", "PinType")
@@ -478,13 +501,21 @@ func r044(c *Ctx, r *R) {
 		}
 		r.Check(covered[k.Name()] || defaultErr, "Unpin:case:"+k.Name(), sw.Pos(), "pin type "+k.Name()+" is handled", "pin type "+k.Name()+" has no arm in Unpin and the default does not refuse")
 	}
-	// unpinClusterDag precedes the meta LogUnpin and its failure aborts
+	// unpinClusterDag precedes the meta LogUnpin and its failure aborts:
+	// every path to a LogUnpin either established that the pin is not a
+	// meta pin or passed the success edge of unpinClusterDag
 	ucd := findCalls(f, false, ModPath+".Cluster).unpinClusterDag")
-	if len(ucd) == 1 {
-		ok := false
+	if len(ucd) >= 1 {
+		ok := true
 		for _, ci := range lu {
-			if guardedBy(ci.Block(), func(g Guard) bool { return gCallErrNil(g, ModPath+".Cluster).unpinClusterDag") }) {
-				ok = true
+			if !mustPass(ci.Block(), func(g Guard) bool {
+				if gCallErrNil(g, ModPath+".Cluster).unpinClusterDag") || gEq(g, meta, false, isT) {
+					return true
+				}
+				x, kk, tme, isEq := eqConst(g.Cond)
+				return isEq && isT(x) && tme == g.Branch && !constant.Compare(kk, token.EQL, meta)
+			}) {
+				ok = false
 			}
 		}
 		r.Check(ok, "Unpin:meta-dag-first", ucd[0].Pos(), "a meta pin is removed only after its cluster-DAG and shards were unpinned", "the meta entry is removed although unpinning its cluster-DAG/shards failed")
